@@ -50,4 +50,9 @@ TEXTS["C16"] = {
     "note": "Real ipfsconn/ipfshttp from /repo over real HTTP on loopback; trusts the fake daemon's fidelity to go-ipfs (status codes, message strings, trailers).",
     "technique": "property-based testing with fault injection against a scripted fake daemon (rapid)",
 }
+TEXTS["C12"] = {
+    "level": "Generated-input search over HTTP requests to the real IPFS proxy: hijacked routes in both argument styles, all methods, valid/invalid paths and every option, with the cluster answering success or error; and non-hijacked requests (other methods, near-miss paths, arbitrary queries and bodies). Oracles: exactly the expected cluster call(s) with the requested path and options; no cluster write when the proxy answers with an error; hijacked requests never relayed; non-hijacked requests arrive at a recording fake daemon byte-identical and its answer comes back. Exploration level.",
+    "note": "Real api/ipfsproxy and adderutils from /repo over real HTTP; cluster/consensus/connector RPC services are recording fakes, the daemon is an httptest server.",
+    "technique": "property-based differential testing of a proxy against recording fakes on both sides (rapid)",
+}
 PENDING = {}
